@@ -80,7 +80,7 @@ func needTick(name string) bool {
 		}
 	}
 	switch strings.ToLower(name) {
-	case "a", "b", "c", "d", "e", "g", "h", "k", "m", "n", "v", "w", "x", "y", "z", "id", "a2", "b2", "s", "t", "u", "p", "q", "r":
+	case "a", "b", "c", "d", "e", "g", "h", "k", "m", "n", "o", "v", "w", "x", "y", "z", "id", "a2", "b2", "s", "t", "u", "p", "q", "r":
 		return false
 	}
 	return true // quote everything else: cheaper than tracking the parser's keyword list
@@ -262,6 +262,12 @@ func (e Raw) sql(sb *strings.Builder) { sb.WriteString(e.Text) }
 func (e Agg) sql(sb *strings.Builder) {
 	if e.Col == "" {
 		sb.WriteString(e.Fn + "(*)")
+		return
+	}
+	// a dotted column of two plain identifiers is written qualified and unquoted (o.v): that is the
+	// form in which the parser separates qualifier and name
+	if parts := strings.Split(e.Col, "."); len(parts) == 2 && !needTick(parts[0]) && !needTick(parts[1]) {
+		sb.WriteString(e.Fn + "(" + e.Col + ")")
 		return
 	}
 	sb.WriteString(e.Fn + "(" + Ident(e.Col) + ")")
